@@ -54,7 +54,7 @@ def powInt (p : Rat) (n : Int) : Option Rat :=
 
 /-- why `get_value` raised: ValueError (no definition), TypeError (`float(None)`), RecursionError, a division by
     zero (SymPy: `zoo`), something that is not arithmetic -/
-inductive VErr | noDefinition | noInit | fuel | arith | unsupported
+inductive VErr | noDefinition | noInit | fuel | arith | unsupported | derivativeWrtNumber | floatHasNoAtoms
 deriving DecidableEq, Repr, Inhabited
 
 /-- replace every derivative by what `f` gives for it -/
@@ -206,6 +206,34 @@ def getValueAux (M : RModel) (F : Nat) : Nat → Nat → Memo → Except VErr (R
             | .ok q => .ok (q, m')
             | .error e => .error e
 
+/-- `_get_value` as it was before the two `fix:` commits: no expansion of derivatives, so `xreplace` puts numbers
+    inside the `Derivative` atom and SymPy raises `ValueError: Can't calculate derivative wrt 0`; and a right-hand side
+    that is a bare variable comes back from `xreplace` as a Python float, on which `.atoms` raises `AttributeError` -/
+def getValueAuxToday (M : RModel) : Nat → Nat → Memo → Except VErr (Rat × Memo)
+  | 0, _, _ => .error .fuel
+  | f + 1, v, m =>
+    if isState M v then
+      match initOf M.st v with
+      | some q => .ok (q, m)
+      | none => .error .noInit
+    else match varRhs M v with
+      | none => if freeVar M = some v then .ok (0, m) else .error .noDefinition
+      | some r =>
+        match evalDeps (getValueAuxToday M f) r.vars m with
+        | .error e => .error e
+        | .ok m' =>
+          if !r.nodes.all (fun n => match n with | .var _ => true | .deriv _ _ => false) then .error .derivativeWrtNumber
+          else match r with
+            | .var _ => .error .floatHasNoAtoms
+            | _ => match evalE m' r with
+              | .ok q => .ok (q, m')
+              | .error e => .error e
+
+def getValueToday (M : RModel) (v : Nat) : Except VErr Rat :=
+  match getValueAuxToday M (M.st.live.length + 1) v (memo0 M) with
+  | .ok (q, _) => .ok q
+  | .error e => .error e
+
 def getValueFuel (M : RModel) (F : Nat) (v : Nat) : Except VErr Rat :=
   match getValueAux M F F v (memo0 M) with
   | .ok (q, _) => .ok q
@@ -214,5 +242,18 @@ def getValueFuel (M : RModel) (F : Nat) (v : Nat) : Except VErr Rat :=
 /-- `get_value(variable)`: `|variables| + 1` levels of recursion are enough for acyclic definitions
     (`Props/C10.lean: getValue_fuel`) -/
 def getValue (M : RModel) (v : Nat) : Except VErr Rat := getValueFuel M (M.st.live.length + 1) v
+
+/-- everything C10 is about: the answers of the role queries and of `get_value` -/
+structure Roles where
+  states : List Nat
+  free : Option Nat
+  derivatives : Except GErr (List (Nat × Nat))
+  derivedQuantities : Except GErr (List Nat)
+  isState : Nat → Bool
+  isConstant : Nat → Bool
+  value : Nat → Except VErr Rat
+
+def roles (M : RModel) : Roles :=
+  ⟨stateVars M, freeVar M, derivatives M, derivedQuantities M, isState M, isConstant M, getValue M⟩
 
 end Model
